@@ -14,8 +14,11 @@ def _run(cmd, cwd, timeout=1200):
     return p.returncode, p.stdout
 
 
-def _mk_crate(d, name, features, bins, default_features=True):
+def _mk_crate(d, name, features, bins, default_features=True, lib=None):
     os.makedirs(os.path.join(d, "src", "bin"), exist_ok=True)
+    if lib is not None:
+        with open(os.path.join(d, "src", "lib.rs"), "w") as f:
+            f.write(lib)
     feat = ", features = [%s]" % ", ".join('"%s"' % f for f in features) if features else ""
     df = "" if default_features else ", default-features = false"
     with open(os.path.join(d, "Cargo.toml"), "w") as f:
@@ -172,6 +175,37 @@ fn main() {
     }
 }
 """
+# a calling crate whose own root is #![no_std] (a driver-style library with no features of its own) while rrtk is built with
+# std (its default, or through feature unification): every path in the macro's expansion must resolve through $crate
+NOSTD_LIB = """#![no_std]
+use rrtk::Reference;
+pub trait Bar { fn v(&self) -> i32; fn set(&mut self, x: i32); }
+pub struct Foo(pub i32);
+impl Bar for Foo { fn v(&self) -> i32 { self.0 } fn set(&mut self, x: i32) { self.0 = x; } }
+/// whatever variant the caller hands in
+pub fn erase(r: Reference<Foo>) -> Reference<dyn Bar> { rrtk::to_dyn!(Bar, r) }
+"""
+NOSTD_BIN = """use probe_c17::{erase, Bar, Foo};
+use rrtk::*;
+fn run(original: Reference<Foo>, w: i32) {
+    let kept = original.clone();
+    let d = erase(original);
+    d.borrow_mut().set(w);
+    kept.borrow_mut().0 += 1;
+    let d2 = d.clone();
+    drop(d);
+    println!("RESULT {}", d2.borrow().v());
+}
+fn main() {
+    let which = std::env::args().nth(1).unwrap_or_default();
+    match which.as_str() {
+        "rc" => run(rc_ref_cell_reference(Foo(7)), 9),
+        "prw" => run(static_rw_lock_reference!(Foo, Foo(3)), 5),
+        "ptr" => run(static_reference!(Foo, Foo(4)), 7),
+        _ => {}
+    }
+}
+"""
 EXPECT = {"rc": "RESULT 10", "prw": "RESULT 6", "ptr": "RESULT 8"}
 VARIANT = {"rc": "RcRefCell", "prw": "PtrRwLock", "ptr": "Ptr"}
 
@@ -179,11 +213,15 @@ VARIANT = {"rc": "RcRefCell", "prw": "PtrRwLock", "ptr": "Ptr"}
 def c17_extra(tier, seed, log):
     ev = {"downstream": {}, "kind": "to_dyn! expanded in downstream crates that declare different features of their own"}
     viol = []
-    configs = [("none", [])] if tier == "quick" else [("none", []), ("alloc", ["alloc"]), ("alloc_std", ["alloc", "std"])]
+    configs = [("none", []), ("nostd_lib", [])] if tier == "quick" else \
+              [("none", []), ("nostd_lib", []), ("alloc", ["alloc"]), ("alloc_std", ["alloc", "std"])]
     for cname, own in configs:
         d = tempfile.mkdtemp(prefix="rrtk_probe_c17_")
         try:
-            _mk_crate(d, "probe_c17", [], {"down": DOWNSTREAM})
+            if cname == "nostd_lib":
+                _mk_crate(d, "probe_c17", [], {"down": NOSTD_BIN}, lib=NOSTD_LIB)
+            else:
+                _mk_crate(d, "probe_c17", [], {"down": DOWNSTREAM})
             if own:
                 with open(os.path.join(d, "Cargo.toml"), "a") as f:
                     f.write("[features]\n" + "".join('%s = []\n' % x for x in own) + 'default = [%s]\n' % ", ".join('"%s"' % x for x in own))
